@@ -1441,7 +1441,7 @@ class CalendarDateRange(Range):
             )
 
         for n in val:
-            if not isinstance(n, dt.date):
+            if not isinstance(n, dt.date) or isinstance(n, dt.datetime):
                 raise ValueError(
                     f"{_validate_error_prefix(self)} only takes date types, "
                     f"not {val}."
